@@ -129,6 +129,29 @@ fn selfcheck_clean(text: &str, want: &Entry) {
     assert!(found.is_empty() && e == *want, "harness bug: reference reader disagrees with fold on {text:?}");
 }
 
+/// The variable whose table name is nearest to a near-miss name (by
+/// longest common subsequence; only used to decide which real line a
+/// near-miss line stands in for, and whether its value should be an integer).
+fn closest_var(bad: &str) -> usize {
+    let b: Vec<char> = bad.to_uppercase().chars().collect();
+    let mut best = (0usize, 0usize);
+    for (i, v) in VARS.iter().enumerate() {
+        let a: Vec<char> = v.name.chars().collect();
+        let mut t = vec![vec![0usize; b.len() + 1]; a.len() + 1];
+        for x in 0..a.len() {
+            for y in 0..b.len() {
+                t[x + 1][y + 1] = if a[x] == b[y] { t[x][y] + 1 } else { t[x][y + 1].max(t[x + 1][y]) };
+            }
+        }
+        // prefer the longest match, then the shortest name
+        let score = t[a.len()][b.len()] * 64 + (63 - a.len().min(63));
+        if score > best.0 {
+            best = (score, i);
+        }
+    }
+    best.1
+}
+
 fn base_complete(r: &mut Rng) -> (Vec<Line>, Entry) {
     let (lines, _) = gs::wellformed(r, true);
     let want = os::fold(&lines).expect("harness bug: generated integer line is not an integer");
@@ -159,6 +182,26 @@ pub fn run(cx: &mut Cx) {
         "accept/without_final_newline",
         "subsets/full",
         "subsets/partial",
+        "near_miss/invisible_prefix/bom/first/insert",
+        "near_miss/invisible_prefix/bom/first/replace",
+        "near_miss/invisible_prefix/nbsp/first/insert",
+        "near_miss/invisible_prefix/zwsp/middle/insert",
+        "near_miss/invisible_suffix/nbsp/last/replace",
+        "near_miss/invisible_infix/zwsp/middle/insert",
+        "near_miss/lookalike_char/first/insert",
+        "near_miss/lookalike_whole/last/replace",
+        "invisible_line/first",
+        "invisible_line/middle",
+        "invisible_line/last",
+        "long/line",
+        "long/name",
+        "long/name_with_known_prefix",
+        "long/name_with_known_suffix",
+        "long/value_of_unknown_name",
+        "long/int",
+        "long/accepted_value",
+        "long/straddles_limit",
+        "subsets/is_completed_became_true",
     ] {
         cx.ev.require(f);
     }
@@ -315,6 +358,234 @@ pub fn run(cx: &mut Cx) {
         );
     }
 
+    // (g) near misses of the 23 names: an invisible character (BOM, zero-width
+    // space/joiner, NBSP and other Unicode blanks, soft hyphen, NUL ...) before,
+    // after or inside the name, or one character replaced by a look-alike -
+    // enumerated for every name, on the first, a middle and the last line,
+    // as an extra line and in place of the variable's real lines.
+    {
+        let names = gs::near_miss_names();
+        let rounds = cx.pick_tier(0u64, 1, 2, 12);
+        let mini_stride = 211usize;
+        let mut r = cx.stream("near-miss");
+        let mut case = 0u64;
+        for round in 0..rounds.max(1) {
+            for (k, (bad, flavour)) in names.iter().enumerate() {
+                if cx.tier == Tier::Mini && k % mini_stride != 0 {
+                    continue;
+                }
+                // the variable the name is a near miss of: the one whose
+                // table name is closest (only needed for "replace" mode and
+                // to give integer variables an integer value)
+                for (pi, pos) in Pos::ALL.iter().enumerate() {
+                    for replace in [false, true] {
+                        case += 1;
+                        if !cx.mine(case) {
+                            continue;
+                        }
+                        // spread (position, mode) combinations over the rounds for the
+                        // numerous flavours; the first-line cases are always kept
+                        if cx.tier == Tier::Small && (k + pi + round as usize) % 3 != 0 {
+                            continue;
+                        }
+                        let var = closest_var(bad);
+                        let (lines, _) = base_complete(&mut r);
+                        let value = match VARS[var].kind {
+                            Kind::I => gs::size(&mut r).to_string(),
+                            _ => gs::value_for(&mut r, var),
+                        };
+                        let bad_line = format!("{bad}={value}");
+                        let mut out: Vec<String> = vec![];
+                        let mut causes = vec![Cause::Variable];
+                        for l in &lines {
+                            if replace && l.var == var {
+                                continue;
+                            }
+                            out.push(l.render());
+                        }
+                        if replace && VARS[var].required {
+                            causes.push(Cause::Missing(var));
+                        }
+                        let at = match pos {
+                            Pos::First => 0,
+                            Pos::Last => out.len(),
+                            Pos::Middle => {
+                                if out.len() >= 2 {
+                                    r.range(1, out.len() - 1)
+                                } else {
+                                    out.len() / 2
+                                }
+                            }
+                        };
+                        out.insert(at, bad_line);
+                        let nl = r.chance(3, 4);
+                        let text = gs::render(&out, nl);
+                        selfcheck_faulty(&text, &causes);
+                        let mode = if replace { "replace" } else { "insert" };
+                        cx.check(
+                            || format!("near-miss name {bad:?} ({flavour}) on the {} line, {mode}: {text:?}", pos.name()),
+                            |ev| {
+                                ev.count("workload/near_miss");
+                                ev.count(&format!("near_miss/{flavour}/{}/{mode}", pos.name()));
+                                expect_reject(ev, &text, &causes)?;
+                                ev.nontrivial(hash_strs(&[text.as_bytes()]));
+                                Ok(())
+                            },
+                        );
+                    }
+                }
+            }
+            // a line that shows as nothing
+            for inv in gs::INVISIBLE_LINES {
+                for pos in Pos::ALL {
+                    case += 1;
+                    if !cx.mine(case) {
+                        continue;
+                    }
+                    let (lines, _) = base_complete(&mut r);
+                    let f = gs::inject(&mut r, &lines, &Fault::NoEq(inv.to_string()), pos);
+                    let text = gs::render(&f.lines, r.chance(3, 4));
+                    selfcheck_faulty(&text, &f.causes);
+                    cx.check(
+                        || format!("invisible line {inv:?} at {} position: {text:?}", pos.name()),
+                        |ev| {
+                            ev.count("workload/invisible_line");
+                            ev.count(&format!("invisible_line/{}", pos.name()));
+                            expect_reject(ev, &text, &f.causes)?;
+                            ev.nontrivial(hash_strs(&[text.as_bytes()]));
+                            Ok(())
+                        },
+                    );
+                }
+            }
+        }
+    }
+
+    // (h) long faulty lines: a malformed line, an unknown name, a bad integer
+    // (and, as the control, a fault-free value) whose length is around a
+    // power of two or another plausible fixed limit, made of characters of one
+    // width at every byte alignment, so that any byte offset chosen without
+    // regard to character boundaries falls inside a character for most of them.
+    {
+        let rounds = cx.pick_tier(0u64, 1, 4, 24);
+        let mut r = cx.stream("long-lines");
+        let mut case = 0u64;
+        const KINDS: [&str; 7] = [
+            "line",
+            "name",
+            "name_with_known_prefix",
+            "name_with_known_suffix",
+            "value_of_unknown_name",
+            "int",
+            "accepted_value",
+        ];
+        for round in 0..rounds.max(1) {
+            let mut limits: Vec<usize> = gs::LIMITS.to_vec();
+            if round == 0 && cx.tier != Tier::Mini && cx.tier != Tier::Small {
+                limits.extend([16_384, 65_536]);
+            }
+            if cx.tier == Tier::Mini {
+                limits = vec![64, 256];
+            }
+            for &limit in &limits {
+                for (width, lead) in [(2usize, 0usize), (2, 1), (3, 0), (3, 1), (3, 2), (4, 0), (4, 1), (4, 2), (4, 3), (0, 0)] {
+                    for kind in KINDS {
+                        for pos in Pos::ALL {
+                            case += 1;
+                            if !cx.mine(case) {
+                                continue;
+                            }
+                            if cx.tier == Tier::Mini && case % 16 != 0 {
+                                continue;
+                            }
+                            let (lines, want) = base_complete(&mut r);
+                            // the long text starts the line / the name, so `lead`
+                            // is its alignment inside the offending text
+                            let len = limit + r.below(12) - 3;
+                            let long = gs::aligned_text(&mut r, width, lead, len);
+                            let straddles = !long.is_char_boundary(limit.min(long.len()));
+                            let (text, causes, want) = match kind {
+                                "accepted_value" => {
+                                    let svars: Vec<usize> = (0..NVARS).filter(|&v| VARS[v].kind != Kind::I).collect();
+                                    let var = *r.pick(&svars);
+                                    let mut ls = lines.clone();
+                                    let at = match pos {
+                                        Pos::First => 0,
+                                        Pos::Last => ls.len(),
+                                        Pos::Middle => ls.len() / 2,
+                                    };
+                                    ls.insert(at, Line { var, text: long.clone() });
+                                    let want = os::fold(&ls).expect("harness bug: generated integer line is not an integer");
+                                    let text = gs::render(&rendered(&ls), r.chance(3, 4));
+                                    selfcheck_clean(&text, &want);
+                                    (text, vec![], want)
+                                }
+                                _ => {
+                                    let known = VARS[r.below(NVARS)].name;
+                                    let fault = match kind {
+                                        "line" => Fault::NoEq(long.clone()),
+                                        "name" => Fault::BadName(format!("{long}={}", gs::value(&mut r)), "long"),
+                                        "name_with_known_prefix" => {
+                                            Fault::BadName(format!("{known}{long}={}", gs::value(&mut r)), "long")
+                                        }
+                                        "name_with_known_suffix" => {
+                                            Fault::BadName(format!("{long}{known}={}", gs::value(&mut r)), "long")
+                                        }
+                                        "value_of_unknown_name" => {
+                                            let (n, _) = *r.pick(&gs::BAD_NAMES);
+                                            Fault::BadName(format!("{n}={long}"), "long")
+                                        }
+                                        _ => {
+                                            let var = if r.chance(1, 2) { os::FILE_SIZE } else { os::SIZE_PKG };
+                                            // not an integer: far too many digits, or digits then other text
+                                            let bad = match r.below(3) {
+                                                0 => "7".repeat(len.max(20)),
+                                                1 => format!("12{long}"),
+                                                _ => long.clone(),
+                                            };
+                                            if r.chance(1, 2) {
+                                                Fault::BadIntReplace(var, bad)
+                                            } else {
+                                                Fault::BadIntInsert(var, bad)
+                                            }
+                                        }
+                                    };
+                                    let f = gs::inject(&mut r, &lines, &fault, pos);
+                                    let text = gs::render(&f.lines, r.chance(3, 4));
+                                    selfcheck_faulty(&text, &f.causes);
+                                    (text, f.causes, want)
+                                }
+                            };
+                            cx.check(
+                                || {
+                                    format!(
+                                        "long {kind} (~{limit} bytes of {width}-byte characters after {lead}) at {} position: {text:?}",
+                                        pos.name()
+                                    )
+                                },
+                                |ev| {
+                                    ev.count("workload/long_lines");
+                                    ev.count(&format!("long/{kind}"));
+                                    ev.max("max/line_bytes", long.len() as u64);
+                                    if straddles {
+                                        ev.count("long/straddles_limit");
+                                    }
+                                    if causes.is_empty() {
+                                        expect_accept(ev, &text, &want)?;
+                                    } else {
+                                        expect_reject(ev, &text, &causes)?;
+                                    }
+                                    ev.nontrivial(hash_strs(&[text.as_bytes()]));
+                                    Ok(())
+                                },
+                            );
+                        }
+                    }
+                }
+            }
+        }
+    }
+
     // (f) is_completed on every subset of the required variables set through
     // the setters (exhaustive: 2^11), against the count rule and the parser.
     let full: u32 = (1 << REQUIRED.len()) - 1;
@@ -377,9 +648,32 @@ pub fn run(cx: &mut Cx) {
                     if missing.len() == 1 {
                         ev.count(&format!("removed/setter/{}", VARS[missing[0]].name));
                     }
+                    // is_completed() is asked after every call on the way: it
+                    // must follow the calls made so far, whatever it answered before
                     let mut sum = Summary::new();
-                    for op in &ops {
+                    let mut cur = Entry::new();
+                    let mut was = false;
+                    for (k, op) in ops.iter().enumerate() {
                         apply(&mut sum, op);
+                        match op {
+                            gs::Op::Set(v, val) => cur.set(*v, val.clone()),
+                            gs::Op::Push(v, l) => cur.push(*v, l),
+                        }
+                        ev.eval();
+                        let now = sum.is_completed();
+                        if now != cur.is_complete() {
+                            return Err(format!(
+                                "after call {} of {} is_completed() = {now} but {} of the eleven are set",
+                                k + 1,
+                                ops.len(),
+                                REQUIRED.len() - cur.missing().len()
+                            )
+                            .into());
+                        }
+                        if now && !was {
+                            ev.count("subsets/is_completed_became_true");
+                        }
+                        was = now;
                     }
                     ev.eval();
                     let done = sum.is_completed();
